@@ -208,6 +208,43 @@ def oracle(ctx):
             sets.append({f'{stem}.{ty}': '[' + G.SEC[ty] + ']\n' + ''.join(b + '\n' for b in G.BASE[ty]) + f'{key}={rnd.choice(LISTS)}\n'
                          + (f'{key}={rnd.choice(LISTS)}\n' if rnd.random() < 0.4 else '')})
     filespell.compare(ctx, sets, filespell.DROPIN_WAYS, 'C05 list assignments in drop-ins')
+    # the observation point "symlinks created from WantedBy= / Alias= word lists": a normal run of the real binary; every word of the
+    # lists gets its link — a word that is ignored for its own reasons (it holds a '/') takes no other word with it
+    import e2e, shutil
+    IW = ['first.target', 'multi-user.target', '"two words.target"', "'sq.target'", 'sub/dir.target', '../up.target', 'es\\x2dc.target', 'last.target', 'é.target', '/abs.target']
+    icases = []
+    for _ in range(80 if ctx.thorough else 24):
+        ws = {k: [rnd.choice(IW) for _ in range(rnd.randint(1, 5))] for k in ('WantedBy', 'RequiredBy')}
+        text = '[Container]\nImage=localhost/i\n[Install]\n'
+        for k, words in ws.items():
+            cut = rnd.randint(0, len(words))
+            text += f'{k}=' + ' '.join(words[:cut]) + '\n' + (f'{k}=' + rnd.choice([' ', '\t', '  ']).join(words[cut:]) + '\n' if words[cut:] else '')
+        icases.append((ws, text))
+
+    def run_install(c):
+        base = e2e.fresh_dir()
+        e2e.write_tree(base, {'src/a.container': c[1]})
+        out = os.path.join(base, 'out')
+        rc, so, se = e2e.run_binary(['--no-kmsg-log', out], os.path.join(base, 'src'))
+        links = set()
+        for dp, dns, fns in os.walk(out):
+            for n in dns + fns:
+                if os.path.islink(os.path.join(dp, n)):
+                    links.add(os.path.relpath(os.path.join(dp, n), out))
+        shutil.rmtree(base, ignore_errors=True)
+        return rc, links
+    plain = lambda w: unhx(ctx.model(['spec_split_strv\t' + hx(w)])[0][4:-1].split(' ')[0])
+    for (ws, text), (rc, links) in zip(icases, e2e.pmap(run_install, icases)):
+        res.oracle_evals += 1
+        want = set()
+        for k, suffix in (('WantedBy', '.wants'), ('RequiredBy', '.requires')):
+            for w in ws[k]:
+                pw = plain(w)
+                if '/' not in pw:
+                    want.add(f'{pw}{suffix}/a.service')
+        if links != want:
+            res.oracle_failures.append(dict(op='e2e install', input=text, impl_output=dict(exit=rc, links=sorted(links)),
+                                            oracle_expectation=f'one link per word without a path separator: {sorted(want)} (missing {sorted(want - links)}, unexpected {sorted(links - want)})'))
     # known finding KF-C05-1: re-confirm on its recorded example
     for kid, k in known.items():
         ex = json.load(open(os.path.join(core.VERIF, 'known_findings.d', k['example'])))
